@@ -271,13 +271,20 @@ def build_model(prop_dir, driver, modname):
         with open(os.path.join(d, 'main.ml'), 'w') as f:
             f.write('open %s\n' % modname.capitalize() + common + '\n' + drv)
         exe = os.path.join(d, 'driver')
-        p = sh(['ocamlfind', 'ocamlopt', '-O3', '-unboxed-types', '-w', '-a', modname + '.mli', modname + '.ml', 'main.ml', '-o', exe],
+        exe_bin = exe + '.bin'
+        p = sh(['ocamlfind', 'ocamlopt', '-O3', '-unboxed-types', '-w', '-a', modname + '.mli', modname + '.ml', 'main.ml', '-o', exe_bin],
                cwd=d, timeout=600)
         if p.returncode != 0:
-            p = sh(['ocamlfind', 'ocamlopt', '-w', '-a', modname + '.mli', modname + '.ml', 'main.ml', '-o', exe],
+            p = sh(['ocamlfind', 'ocamlopt', '-w', '-a', modname + '.mli', modname + '.ml', 'main.ml', '-o', exe_bin],
                    cwd=d, timeout=600)
         if p.returncode != 0:
             return None, 'ocaml build failed:\n' + (p.stdout + p.stderr).decode(errors='replace')[-4000:]
+        # extracted functions are not tail recursive: long inputs need a deep stack (the default 8 MB soft limit
+        # made the model die with Stack_overflow on 64 KiB strings); the wrapper raises the soft limit to 4 GiB
+        with open(exe + '.tmp', 'w') as f:
+            f.write('#!/bin/bash\nulimit -s 4194304 2>/dev/null || ulimit -s $(ulimit -Hs) 2>/dev/null\nexec "%s" "$@"\n' % exe_bin)
+        os.chmod(exe + '.tmp', 0o755)
+        os.replace(exe + '.tmp', exe)
     return exe, ''
 
 
